@@ -966,6 +966,37 @@ impl Generator {
                 ops.push(gen_op(rng, info, kind));
             }
         }
+        // occasionally a sweep over many distinct cache keys somewhere in the history, followed
+        // by a repeat of an earlier layout query (a memo that evicts, trims or wraps)
+        if rng.pct(5) && !info.chars.is_empty() {
+            let earlier: Vec<Op> = ops
+                .iter()
+                .filter(|o| matches!(o, Op::Shape { .. } | Op::FeaturesSupported { .. }))
+                .cloned()
+                .collect();
+            let (text, script, tuple) = match earlier.first() {
+                Some(Op::Shape { text, script, tuple, .. }) => (text.chars().take(6).collect::<String>(), script.clone(), tuple.clone()),
+                _ => (
+                    info.chars.iter().take(3).filter_map(|c| char::from_u32(*c)).collect::<String>(),
+                    gen_script(rng, info, ""),
+                    gen_tuple(rng, info, true),
+                ),
+            };
+            let at = rng.usize_below(ops.len() + 1);
+            ops.insert(
+                at,
+                Op::ShapeSweep {
+                    text,
+                    script,
+                    count: *rng.pick(&[20u16, 70, 140, 270, 300, 530]),
+                    vary: rng.below(3) as u8,
+                    tuple,
+                },
+            );
+            if let Some(e) = earlier.first() {
+                ops.push(e.clone());
+            }
+        }
         // occasionally a pure operation at the end (byte-identity across the fresh reference
         // and across repetitions on fresh threads)
         if rng.pct(15) {
